@@ -33,6 +33,16 @@ deriving Repr, DecidableEq, Inhabited
 /-- partition count of a topic: Go `topics[topic]` on a `map[string]int32` (0 when missing). -/
 def cnt (topics : List (String × Nat)) (t : String) : Nat := (topics.lookup t).getD 0
 
+/-- stable insertion sort (structural recursion, so that closed terms evaluate in the kernel); every use
+below sorts by a total order on distinct keys, where it agrees with Go's `sort.Slice` / `slices.SortFunc`. -/
+def insertBy (le : α → α → Bool) (x : α) : List α → List α
+  | [] => [x]
+  | y :: ys => if le x y then x :: y :: ys else y :: insertBy le x ys
+
+def sortBy (le : α → α → Bool) : List α → List α
+  | [] => []
+  | x :: xs => insertBy le x (sortBy le xs)
+
 /-- order-preserving removal of duplicates (first occurrence kept); `seen` = what was already emitted. -/
 def dedupAux [BEq α] (seen : List α) : List α → List α
   | [] => []
@@ -62,7 +72,7 @@ def memberLess (l r : Member) : Bool :=
   | none, none => l.id < r.id
 
 /-- `sortJoinMemberPtrs` (Go's sort is not stable; with pairwise comparable members the result is the same). -/
-def sortMembers (ms : List Member) : List Member := ms.mergeSort (fun a b => !memberLess b a)
+def sortMembers (ms : List Member) : List Member := sortBy (fun a b => !memberLess b a) ms
 
 /-- `topics2PotentialConsumers[t]` after sorting: one entry per occurrence of `t` in a member's topics. -/
 def consumersOf (ms : List Member) (t : String) : List Member :=
@@ -70,17 +80,20 @@ def consumersOf (ms : List Member) (t : String) : List Member :=
 
 def quotaOf (div rem ci : Nat) : Nat := if ci < rem then div + 1 else div
 
-/-- Phase 1 for the consumers from index `ci` on: rack-matching, still unassigned partitions, lowest first,
-at most the consumer's quota. `racks` is `partitionRacks[topic]` (`[]` when absent). -/
+/-- Phase 1 for one consumer: rack-matching, still unassigned partitions, lowest first, at most its quota `q`.
+`racks` is `partitionRacks[topic]` (`[]` when absent); a nil or empty member rack takes nothing. -/
+def phase1Take (numP : Nat) (racks : List String) (q : Nat) (c : Member) (assigned : List Nat) : List Nat :=
+  match c.rack with
+  | some r =>
+    if r == "" then []
+    else ((List.range numP).filter fun p => !assigned.contains p && racks[p]? == some r).take q
+  | none => []
+
+/-- Phase 1 for the consumers from index `ci` on. -/
 def phase1 (numP : Nat) (racks : List String) (div rem : Nat) : List Member → Nat → List Nat → List (List Nat)
   | [], _, _ => []
   | c :: cs, ci, assigned =>
-    let taken :=
-      match c.rack with
-      | some r =>
-        if r == "" then []
-        else ((List.range numP).filter fun p => !assigned.contains p && racks[p]? == some r).take (quotaOf div rem ci)
-      | none => []
+    let taken := phase1Take numP racks (quotaOf div rem ci) c assigned
     taken :: phase1 numP racks div rem cs (ci + 1) (assigned ++ taken)
 
 /-- Phase 2 hands the remaining partitions out in order, `quota` at a time. -/
@@ -120,7 +133,7 @@ def tpLe (a b : TP) : Bool := a.1 < b.1 || (a.1 == b.1 && a.2 ≤ b.2)
 
 /-- `allParts`: every partition of every topic some member lists, sorted by topic then partition. -/
 def allParts (ms : List Member) (topics : List (String × Nat)) : List TP :=
-  ((subTopics ms).flatMap fun t => (List.range (cnt topics t)).map fun p => (t, p)).mergeSort tpLe
+  sortBy tpLe ((subTopics ms).flatMap fun t => (List.range (cnt topics t)).map fun p => (t, p))
 
 /-- the circular walk from `start`: the first member index (in walk order) listing `t`; `none` when nobody
 does (the Go loop `for { … }` would never exit). -/
@@ -149,11 +162,14 @@ def balanceRR (ms : List Member) (topics : List (String × Nat)) : Option (List 
 
 def claims (m : Member) (tp : TP) : Bool := m.owned.any fun e => e.1 == tp.1 && e.2.contains tp.2
 
+def maxStep (acc : Option Int) (m : Member) : Option Int :=
+  match acc with
+  | none => some m.gen
+  | some g => if m.gen > g then some m.gen else some g
+
 /-- `maxClaim[topic][partition]`: the highest generation among the members listing the partition as owned. -/
 def maxClaim (ms : List Member) (tp : TP) : Option Int :=
-  (ms.filter (claims · tp)).foldl (fun acc m => match acc with
-    | none => some m.gen
-    | some g => if m.gen > g then some m.gen else some g) none
+  (ms.filter (claims · tp)).foldl maxStep none
 
 def geMax (ms : List Member) (m : Member) (tp : TP) : Bool :=
   match maxClaim ms tp with
@@ -198,8 +214,8 @@ def kSubscribed (ms : List KMember) : List String := dedup (ms.flatMap (·.subs)
 
 /-- `allTPs`: partitions of subscribed topics present in the snapshot, sorted. -/
 def kAllTPs (ms : List KMember) (snap : List (String × Nat)) : List TP :=
-  (((kSubscribed ms).filter fun t => (snap.lookup t).isSome).flatMap fun t =>
-      (List.range (cnt snap t)).map fun p => (t, p)).mergeSort tpLe
+  sortBy tpLe (((kSubscribed ms).filter fun t => (snap.lookup t).isSome).flatMap fun t =>
+      (List.range (cnt snap t)).map fun p => (t, p))
 
 def kLessRange (a b : KMember) : Bool :=
   match a.inst, b.inst with
@@ -209,8 +225,8 @@ def kLessRange (a b : KMember) : Bool :=
   | none, none => a.id < b.id
 
 def kSortIDs (assignor : String) (ms : List KMember) : List KMember :=
-  if assignor == "range" then ms.mergeSort (fun a b => !kLessRange b a)
-  else ms.mergeSort (fun a b => !(b.id < a.id))
+  if assignor == "range" then sortBy (fun a b => !kLessRange b a) ms
+  else sortBy (fun a b => !(b.id < a.id)) ms
 
 def tagK (t : String) : List KMember → List (List Nat) → List Triple
   | c :: cs, l :: ls => l.map (fun p => (c.id, t, p)) ++ tagK t cs ls
@@ -225,7 +241,7 @@ def kRangeTopic (ms : List KMember) (snap : List (String × Nat)) (t : String) :
   tagK t subs (splitBy quotas (List.range numP))
 
 def kTopicsSorted (ms : List KMember) (snap : List (String × Nat)) : List String :=
-  ((kSubscribed ms).filter fun t => (snap.lookup t).isSome).mergeSort (fun a b => !(b < a))
+  sortBy (fun a b => !(b < a)) ((kSubscribed ms).filter fun t => (snap.lookup t).isSome)
 
 /-- `assignRange` on sorted active members. -/
 def kAssignRange (ms : List KMember) (snap : List (String × Nat)) : List Triple :=
@@ -280,30 +296,38 @@ structure KUniform where
   stay : List Triple     -- the targets after step 2
   fresh : List Triple    -- step 4
 
+/-- steps 1 and 2 for every member: (member, kept, (what stays, what is shed)). `allowedOf i` is the number of
+partitions member `i` may keep. -/
+def kPerMember (ms : List KMember) (snap : List (String × Nat)) (allowedOf : Nat → Nat) :
+    List (KMember × List (String × List Nat) × List (String × List Nat) × List TP) :=
+  ((indexFrom 0 ms).zip ms).map fun im =>
+    let k := kKept snap im.2
+    (im.2, k, kShed (sortBy (fun a b => !(b.1 < a.1)) k) (kCount k - allowedOf im.1))
+
+/-- steps 3 and 4 from the per-member results. -/
+def kFinish (ms : List KMember) (allTPs : List TP)
+    (per : List (KMember × List (String × List Nat) × List (String × List Nat) × List TP)) : KUniform :=
+  let keptAll := per.flatMap fun x => flatTPs x.2.1
+  let shedAll := per.flatMap fun x => x.2.2.2
+  let unassigned := allTPs.filter fun tp => !(keptAll.contains tp && !shedAll.contains tp)
+  { keptAll := keptAll, shedAll := shedAll,
+    stay := per.flatMap fun x => (flatTPs x.2.2.1).map fun tp => (x.1.id, tp.1, tp.2),
+    fresh := kDistribute ms (per.map fun x => kCount x.2.2.1) unassigned }
+
 /-- `assignUniform` on sorted active members. -/
 def kAssignUniformParts (ms : List KMember) (snap : List (String × Nat)) : KUniform :=
   let allTPs := kAllTPs ms snap
-  let kept := ms.map (kKept snap)
-  let counts := kept.map kCount
+  let counts := ms.map fun m => kCount (kKept snap m)
   let minCount := allTPs.length / ms.length
   let extra := allTPs.length % ms.length
   -- sorted by count descending, member id ascending
-  let order := ((indexFrom 0 ms).zip (ms.zip counts)).mergeSort fun a b =>
-    a.2.2 > b.2.2 || (a.2.2 == b.2.2 && !(b.2.1.id < a.2.1.id))
+  let order := sortBy (fun a b =>
+    a.2.2 > b.2.2 || (a.2.2 == b.2.2 && !(b.2.1.id < a.2.1.id))) ((indexFrom 0 ms).zip (ms.zip counts))
   let allowedOf := fun (i : Nat) =>
     match (indexFrom 0 order).zip order |>.find? (fun x => x.2.1 == i) with
     | some x => if x.1 < extra then minCount + 1 else minCount
     | none => minCount
-  let shed := (indexFrom 0 kept).zipWith (fun i k =>
-    kShed (k.mergeSort fun a b => !(b.1 < a.1)) (kCount k - allowedOf i)) kept
-  let stayL := shed.map (·.1)
-  let shedAll := shed.flatMap (·.2)
-  let keptAll := kept.flatMap flatTPs
-  let counts2 := stayL.map kCount
-  let unassigned := allTPs.filter fun tp => !(keptAll.contains tp && !shedAll.contains tp)
-  { keptAll := keptAll, shedAll := shedAll,
-    stay := (ms.zip stayL).flatMap (fun x => (flatTPs x.2).map fun tp => (x.1.id, tp.1, tp.2)),
-    fresh := kDistribute ms counts2 unassigned }
+  kFinish ms allTPs (kPerMember ms snap allowedOf)
 
 def kAssignUniform (ms : List KMember) (snap : List (String × Nat)) : List Triple :=
   let r := kAssignUniformParts ms snap
